@@ -155,6 +155,21 @@ pub fn check<B: StrictOps>(f: &P, with_hooks: bool, loc: &mut Local) {
                 }
             }
         }
+        // node adjacency: for every occurrence of v among the sources of a hyperedge, all of that hyperedge's targets
+        let mut nadj: Vec<Vec<usize>> = vec![vec![]; f.nodes.len()];
+        for e in &f.edges {
+            for &v in &e.src {
+                nadj[v].extend(e.tgt.iter().cloned());
+            }
+        }
+        match B::hook_node_adjacency(f) {
+            Err(e) => loc.violation(&format!("node_adjacency:{}", e.kind()), json!({"case": case(), "failure": e.msg()})),
+            Ok(a) => {
+                if a.len() != nadj.len() || (0..nadj.len()).any(|v| sorted(a[v].clone()) != sorted(nadj[v].clone())) {
+                    loc.violation("node_adjacency:wrong", json!({"case": case(), "got": a, "expected": nadj}));
+                }
+            }
+        }
         // converse of the source incidence
         let srcs: Vec<Vec<usize>> = f.edges.iter().map(|e| e.src.clone()).collect();
         let mut conv: Vec<Vec<usize>> = vec![vec![]; f.nodes.len()];
